@@ -62,7 +62,7 @@ pub fn std_tokens() -> Vec<&'static str> {
 /// "macro" tokens: whole parenthesised groups count as one symbol, so that short sequences reach
 /// sloppy texts such as a prefix operator followed by two groups (`/ ( x - y ) ( z )`)
 pub fn macro_tokens() -> Vec<&'static str> {
-    vec!["/", "+", "-", "cm", "f", "x", "1", "( x - y )", "( z )", "( 1 / x )", "f ( y )", "( x , y )", "(", ")"]
+    vec!["/", "+", "-", "cm", "f", "x", "1", "( x - y )", "( z )", "( 1 / x )", "f ( y )", "f ( x - y )", "- ( x / y )", "( x , y )", "(", ")"]
 }
 pub fn small_tokens() -> Vec<&'static str> {
     vec!["(", ")", ",", "1", "x", "y", "-", "+", "/", "cm", "f"]
